@@ -172,6 +172,17 @@ CHECKS = {
         "omega*sigma limited to the Faddeeva reference's range; |rate|*width >= 5 recorded as known finding.",
         "DESIGN.md section 4 / C07",
     ),
+    "C06": (
+        "exploration",
+        "E1",
+        "exhaustive enumeration of declaration-order permutations (labels per megacomplex, megacomplexes per dataset, "
+        "datasets) with a differential by-label oracle on the whole result; composition oracle on the combined matrix",
+        "Every permuted twin of every builtin megacomplex family is optimised and every result variable, selected by "
+        "label, must equal the base result's; the combined matrix of several megacomplexes (shared labels, scales, mixed "
+        "index dependence) must be the per-label sum of the single matrices for every megacomplex order.",
+        "Columns are anchored to their definitions by C04/C05/C07; decay-sequential order is semantic and excluded.",
+        "DESIGN.md section 4 / C06",
+    ),
 }
 
 PENDING_REASON = "check under construction in this round - not claimed until its check runs clean on the unchanged tree"
@@ -212,7 +223,7 @@ def main():
             "add_only": True,
         },
         "engines": [
-            {"name": "E1", "path": "vf/core.py", "serves_properties": ["C01", "C02", "C03", "C04", "C05", "C07", "C08", "C09", "C11", "C13"], "kind_free_text": "bounded exhaustive input-space enumeration with reference oracles, 16 workers"},
+            {"name": "E1", "path": "vf/core.py", "serves_properties": ["C01", "C02", "C03", "C04", "C05", "C06", "C07", "C08", "C09", "C11", "C13"], "kind_free_text": "bounded exhaustive input-space enumeration with reference oracles, 16 workers"},
             {"name": "E2", "path": "vf/explore.py", "serves_properties": ["C10", "C12", "C19"], "kind_free_text": "explicit-state BFS over event histories replayed on fresh real objects, full-state digests"},
             {"name": "E3", "path": "vf/checks/c15.py", "serves_properties": ["C15"], "kind_free_text": "deviation-bounded fault enumerator (all single / pairs of deviations from the fault-free environment), forked watchdog"},
             {"name": "E5", "path": "vf/prange.py", "serves_properties": ["C10"], "kind_free_text": "partial-order (conflict relation) exploration of numba prange kernels on py_func with recording array proxies"},
